@@ -160,6 +160,12 @@ Example C06_e2e_witness :
   run [40; 0; 0; 0; 0; 1] [[1; 3; 0; 0; 0]; [2]; [2]] = Some [[]; [1; 0; 0; 0; 0; 0]; []] /\
   run [40; 0; 0; 0; 0; 1] [[1; 4; 0; 0; 0; 0]; [1; 3; 3; 7; 7]; [2]; [2]] = Some [[]; []; [3; 13; 0; 0; 0; 0]; []] /\
   run [40; 0; 0; 0; 0; 1] [[2]; [1; 5; 0; 0; 0; 0; 41]; [2]] = Some [[3; 8; 0; 0; 0; 0]; []; []] /\
+  (* a mismatching legacy WithDecompressor on the channel (cfg[2] = 2) changes nothing: the
+     toy-compressed message [3 x 9] under the registered encoding is decoded by the named codec *)
+  run [40; 0; 2; 2; 2; 1] [[1; 7; 1; 0; 0; 0; 2; 3; 9]; [2]; [2]] =
+  run [40; 0; 0; 2; 2; 1] [[1; 7; 1; 0; 0; 0; 2; 3; 9]; [2]; [2]] /\
+  run [40; 0; 2; 2; 2; 1] [[1; 7; 1; 0; 0; 0; 2; 3; 9]; [2]; [2]] =
+    Some [[]; [0; 0; 3; cksum [9; 9; 9]; 0; 0]; [1; 0; 0; 0; 0; 0]] /\
   wf [40; 0; 0; 0; 0; 1] [[1; 3; 0; 0; 0]; [2]; [2]] = true.
 Proof. vm_compute. repeat split. Qed.
 
